@@ -1,7 +1,7 @@
 (* C11 - The command-byte table is total, exact and invertible.
    Statements only; every proof is `exact <lemma>` from Proofs/.  The byte domain 0 <= b < 256 is
    complete because the Rust argument is a u8. *)
-From Ctap Require Import Base Schema Procs Inst ProcTables Finite C11P.
+From Ctap Require Import Base Schema Procs Inst ProcTables Finite C11P ObOpTables.
 Local Open Scope string_scope.
 Local Open Scope Z_scope.
 
